@@ -20,4 +20,5 @@ Definition default_version : N * N := (1, 0)%N.
 Definition send_literals : list bytes := [hex "6f70656e"; hex "73747265616d"; hex "3c6f70656e20786d6c6e733d2275726e3a696574663a706172616d733a786d6c3a6e733a786d70702d6672616d696e67222076657273696f6e3d27257327"; hex "3c73747265616d3a73747265616d20786d6c6e733d2725732720786d6c6e733a73747265616d3d27687474703a2f2f6574686572782e6a61626265722e6f72672f73747265616d73272076657273696f6e3d27257327"; hex "6964"; hex "746f"; hex "66726f6d"; hex "786d6c3a6c616e67"; hex "2f3e"; hex "3e"].
 Definition write_attr_literals : list bytes := [hex "2025733d27"].
 Definition send_attr_calls : list (bytes * bytes) := [(hex "6964", hex "6964"); (hex "746f", hex "746f"); (hex "66726f6d", hex "66726f6d"); (hex "786d6c3a6c616e67", hex "6c616e67")].
+Definition send_recorded_names : list (bytes * bytes) := [(hex "77734e616d657370616365", hex "6f70656e"); (hex "73747265616d2e4e53", hex "73747265616d")].
 Definition send_escaped_params : list bytes := [hex "76616c7565"].
